@@ -220,6 +220,12 @@ type zipCache struct {
 	groups map[string]bool
 }
 
+func (zc *zipCache) peek(ref blob.Ref) *zipInfo {
+	zc.mu.Lock()
+	defer zc.mu.Unlock()
+	return zc.m[ref]
+}
+
 func (zc *zipCache) get(w *world, ref blob.Ref, data []byte) (zi *zipInfo, fresh bool) {
 	zc.mu.Lock()
 	defer zc.mu.Unlock()
